@@ -319,6 +319,17 @@ R("R24: pts: completeness check written as len(points) < declared on an appended
 R("R25: ply.listAsciiPropertyReader.Read: number copied compared with the declared size afterwards",LA,COPY_OLD,"",
  edits=[(LA,"\tcopy(lpr.buf, line[1:lpr.lastReadListSize+1])\n\treturn int(lpr.lastReadListSize) + 1, err","\tif n := copy(lpr.buf[:lpr.lastReadListSize], line[1:]); n < int(lpr.lastReadListSize) {\n\t\treturn -1, fmt.Errorf(\"list declares %d entries but only %d follow\", lpr.lastReadListSize, n)\n\t}\n\treturn int(lpr.lastReadListSize) + 1, err")])
 
+# ---- round 3: count-less record stream returns whole records only (REC-WHOLE) ----
+SPLAT_HEAD='\t// 12 + 12 + 4 + 4 = 32\n\tsplatBuffer := make([]byte, 32)\n\n\tpositionData := make([]vector3.Float64, 0)\n\tscaleData := make([]vector3.Float64, 0)\n\tcolorData := make([]vector3.Float64, 0)\n\topacityData := make([]float64, 0)\n\trotationData := make([]vector4.Float64, 0)\n\n\tvar err error\n\tfor {\n\t\t_, err = io.ReadFull(in, splatBuffer)\n\t\tif err != nil {\n\t\t\tbreak\n\t\t}\n\n\t\tpositionData = append(positionData, vector3.New(\n\t\t\tmath.Float32frombits(binary.LittleEndian.Uint32(splatBuffer)),\n\t\t\tmath.Float32frombits(binary.LittleEndian.Uint32(splatBuffer[4:])),\n\t\t\tmath.Float32frombits(binary.LittleEndian.Uint32(splatBuffer[8:])),\n\t\t).ToFloat64())\n\n\t\tscaleData = append(scaleData, vector3.New(\n\t\t\tmath.Log(float64(math.Float32frombits(binary.LittleEndian.Uint32(splatBuffer[12:])))),\n\t\t\tmath.Log(float64(math.Float32frombits(binary.LittleEndian.Uint32(splatBuffer[16:])))),\n\t\t\tmath.Log(float64(math.Float32frombits(binary.LittleEndian.Uint32(splatBuffer[20:])))),\n\t\t).ToFloat64())\n\n\t\tcolorData = append(colorData, vector3.New(\n\t\t\t((float64(splatBuffer[24])/255.)-0.5)/SH_C0,\n\t\t\t((float64(splatBuffer[25])/255.)-0.5)/SH_C0,\n\t\t\t((float64(splatBuffer[26])/255.)-0.5)/SH_C0,\n\t\t).ToFloat64())\n\n\t\ta := (float64(splatBuffer[27]) / 255.)\n\t\topacityData = append(opacityData, -math.Log((1/a)-1))\n\n\t\trotationData = append(rotationData, vector4.New(\n\t\t\t(float64(splatBuffer[28])-128)/128,\n\t\t\t(float64(splatBuffer[29])-128)/128,\n\t\t\t(float64(splatBuffer[30])-128)/128,\n\t\t\t(float64(splatBuffer[31])-128)/128,\n\t\t).ToFloat64())\n\t}\n\n\tif err == io.EOF {\n\t\terr = nil\n\t}\n'
+SPLAT_R34='\t// 12 + 12 + 4 + 4 = 32\n\tconst splatSize = 32\n\n\t// Scenes run into the millions of splats, pull them in a block at a time\n\t// instead of issuing one read per splat\n\tconst splatsPerRead = 2048\n\treadBuffer := make([]byte, splatSize*splatsPerRead)\n\n\tpositionData := make([]vector3.Float64, 0)\n\tscaleData := make([]vector3.Float64, 0)\n\tcolorData := make([]vector3.Float64, 0)\n\topacityData := make([]float64, 0)\n\trotationData := make([]vector4.Float64, 0)\n\n\tvar err error\n\tfor err == nil {\n\t\tvar n int\n\t\tn, err = io.ReadFull(in, readBuffer)\n\n\t\tfor offset := 0; offset < n; offset += splatSize {\n\t\t\tsplatBuffer := readBuffer[offset : offset+splatSize]\n\n\t\t\tpositionData = append(positionData, vector3.New(\n\t\t\t\tmath.Float32frombits(binary.LittleEndian.Uint32(splatBuffer)),\n\t\t\t\tmath.Float32frombits(binary.LittleEndian.Uint32(splatBuffer[4:])),\n\t\t\t\tmath.Float32frombits(binary.LittleEndian.Uint32(splatBuffer[8:])),\n\t\t\t).ToFloat64())\n\n\t\t\tscaleData = append(scaleData, vector3.New(\n\t\t\t\tmath.Log(float64(math.Float32frombits(binary.LittleEndian.Uint32(splatBuffer[12:])))),\n\t\t\t\tmath.Log(float64(math.Float32frombits(binary.LittleEndian.Uint32(splatBuffer[16:])))),\n\t\t\t\tmath.Log(float64(math.Float32frombits(binary.LittleEndian.Uint32(splatBuffer[20:])))),\n\t\t\t).ToFloat64())\n\n\t\t\tcolorData = append(colorData, vector3.New(\n\t\t\t\t((float64(splatBuffer[24])/255.)-0.5)/SH_C0,\n\t\t\t\t((float64(splatBuffer[25])/255.)-0.5)/SH_C0,\n\t\t\t\t((float64(splatBuffer[26])/255.)-0.5)/SH_C0,\n\t\t\t).ToFloat64())\n\n\t\t\ta := (float64(splatBuffer[27]) / 255.)\n\t\t\topacityData = append(opacityData, -math.Log((1/a)-1))\n\n\t\t\trotationData = append(rotationData, vector4.New(\n\t\t\t\t(float64(splatBuffer[28])-128)/128,\n\t\t\t\t(float64(splatBuffer[29])-128)/128,\n\t\t\t\t(float64(splatBuffer[30])-128)/128,\n\t\t\t\t(float64(splatBuffer[31])-128)/128,\n\t\t\t).ToFloat64())\n\t\t}\n\t}\n\n\t// The last block of a file is rarely a full one\n\tif err == io.EOF || err == io.ErrUnexpectedEOF {\n\t\terr = nil\n\t}\n'
+SPLAT_BLOCK_DROP='\t// 12 + 12 + 4 + 4 = 32\n\tconst splatSize = 32\n\n\t// Scenes run into the millions of splats, pull them in a block at a time\n\t// instead of issuing one read per splat\n\tconst splatsPerRead = 2048\n\treadBuffer := make([]byte, splatSize*splatsPerRead)\n\n\tpositionData := make([]vector3.Float64, 0)\n\tscaleData := make([]vector3.Float64, 0)\n\tcolorData := make([]vector3.Float64, 0)\n\topacityData := make([]float64, 0)\n\trotationData := make([]vector4.Float64, 0)\n\n\tvar err error\n\tfor err == nil {\n\t\tvar n int\n\t\tn, err = io.ReadFull(in, readBuffer)\n\n\t\tfor offset := 0; offset+splatSize <= n; offset += splatSize {\n\t\t\tsplatBuffer := readBuffer[offset : offset+splatSize]\n\n\t\t\tpositionData = append(positionData, vector3.New(\n\t\t\t\tmath.Float32frombits(binary.LittleEndian.Uint32(splatBuffer)),\n\t\t\t\tmath.Float32frombits(binary.LittleEndian.Uint32(splatBuffer[4:])),\n\t\t\t\tmath.Float32frombits(binary.LittleEndian.Uint32(splatBuffer[8:])),\n\t\t\t).ToFloat64())\n\n\t\t\tscaleData = append(scaleData, vector3.New(\n\t\t\t\tmath.Log(float64(math.Float32frombits(binary.LittleEndian.Uint32(splatBuffer[12:])))),\n\t\t\t\tmath.Log(float64(math.Float32frombits(binary.LittleEndian.Uint32(splatBuffer[16:])))),\n\t\t\t\tmath.Log(float64(math.Float32frombits(binary.LittleEndian.Uint32(splatBuffer[20:])))),\n\t\t\t).ToFloat64())\n\n\t\t\tcolorData = append(colorData, vector3.New(\n\t\t\t\t((float64(splatBuffer[24])/255.)-0.5)/SH_C0,\n\t\t\t\t((float64(splatBuffer[25])/255.)-0.5)/SH_C0,\n\t\t\t\t((float64(splatBuffer[26])/255.)-0.5)/SH_C0,\n\t\t\t).ToFloat64())\n\n\t\t\ta := (float64(splatBuffer[27]) / 255.)\n\t\t\topacityData = append(opacityData, -math.Log((1/a)-1))\n\n\t\t\trotationData = append(rotationData, vector4.New(\n\t\t\t\t(float64(splatBuffer[28])-128)/128,\n\t\t\t\t(float64(splatBuffer[29])-128)/128,\n\t\t\t\t(float64(splatBuffer[30])-128)/128,\n\t\t\t\t(float64(splatBuffer[31])-128)/128,\n\t\t\t).ToFloat64())\n\t\t}\n\t}\n\n\t// The last block of a file is rarely a full one\n\tif err == io.EOF || err == io.ErrUnexpectedEOF {\n\t\terr = nil\n\t}\n'
+SPLAT_BLOCK_ERR='\t// 12 + 12 + 4 + 4 = 32\n\tconst splatSize = 32\n\n\t// Scenes run into the millions of splats, pull them in a block at a time\n\t// instead of issuing one read per splat\n\tconst splatsPerRead = 2048\n\treadBuffer := make([]byte, splatSize*splatsPerRead)\n\n\tpositionData := make([]vector3.Float64, 0)\n\tscaleData := make([]vector3.Float64, 0)\n\tcolorData := make([]vector3.Float64, 0)\n\topacityData := make([]float64, 0)\n\trotationData := make([]vector4.Float64, 0)\n\n\tvar err error\n\tfor err == nil {\n\t\tvar n int\n\t\tn, err = io.ReadFull(in, readBuffer)\n\t\tif err == io.ErrUnexpectedEOF && n%splatSize == 0 {\n\t\t\terr = io.EOF\n\t\t}\n\n\t\tfor offset := 0; offset+splatSize <= n; offset += splatSize {\n\t\t\tsplatBuffer := readBuffer[offset : offset+splatSize]\n\n\t\t\tpositionData = append(positionData, vector3.New(\n\t\t\t\tmath.Float32frombits(binary.LittleEndian.Uint32(splatBuffer)),\n\t\t\t\tmath.Float32frombits(binary.LittleEndian.Uint32(splatBuffer[4:])),\n\t\t\t\tmath.Float32frombits(binary.LittleEndian.Uint32(splatBuffer[8:])),\n\t\t\t).ToFloat64())\n\n\t\t\tscaleData = append(scaleData, vector3.New(\n\t\t\t\tmath.Log(float64(math.Float32frombits(binary.LittleEndian.Uint32(splatBuffer[12:])))),\n\t\t\t\tmath.Log(float64(math.Float32frombits(binary.LittleEndian.Uint32(splatBuffer[16:])))),\n\t\t\t\tmath.Log(float64(math.Float32frombits(binary.LittleEndian.Uint32(splatBuffer[20:])))),\n\t\t\t).ToFloat64())\n\n\t\t\tcolorData = append(colorData, vector3.New(\n\t\t\t\t((float64(splatBuffer[24])/255.)-0.5)/SH_C0,\n\t\t\t\t((float64(splatBuffer[25])/255.)-0.5)/SH_C0,\n\t\t\t\t((float64(splatBuffer[26])/255.)-0.5)/SH_C0,\n\t\t\t).ToFloat64())\n\n\t\t\ta := (float64(splatBuffer[27]) / 255.)\n\t\t\topacityData = append(opacityData, -math.Log((1/a)-1))\n\n\t\t\trotationData = append(rotationData, vector4.New(\n\t\t\t\t(float64(splatBuffer[28])-128)/128,\n\t\t\t\t(float64(splatBuffer[29])-128)/128,\n\t\t\t\t(float64(splatBuffer[30])-128)/128,\n\t\t\t\t(float64(splatBuffer[31])-128)/128,\n\t\t\t).ToFloat64())\n\t\t}\n\t}\n\n\tif err == io.EOF {\n\t\terr = nil\n\t}\n'
+SPLAT_BLOCK_HALF='\t// 12 + 12 + 4 + 4 = 32\n\tconst splatSize = 32\n\n\t// Scenes run into the millions of splats, pull them in a block at a time\n\t// instead of issuing one read per splat\n\tconst splatsPerRead = 2048\n\treadBuffer := make([]byte, splatSize*splatsPerRead)\n\n\tpositionData := make([]vector3.Float64, 0)\n\tscaleData := make([]vector3.Float64, 0)\n\tcolorData := make([]vector3.Float64, 0)\n\topacityData := make([]float64, 0)\n\trotationData := make([]vector4.Float64, 0)\n\n\tvar err error\n\tfor err == nil {\n\t\tvar n int\n\t\tn, err = io.ReadFull(in, readBuffer)\n\n\t\tfor offset := 0; offset+splatSize/2 <= n; offset += splatSize {\n\t\t\tsplatBuffer := readBuffer[offset : offset+splatSize]\n\n\t\t\tpositionData = append(positionData, vector3.New(\n\t\t\t\tmath.Float32frombits(binary.LittleEndian.Uint32(splatBuffer)),\n\t\t\t\tmath.Float32frombits(binary.LittleEndian.Uint32(splatBuffer[4:])),\n\t\t\t\tmath.Float32frombits(binary.LittleEndian.Uint32(splatBuffer[8:])),\n\t\t\t).ToFloat64())\n\n\t\t\tscaleData = append(scaleData, vector3.New(\n\t\t\t\tmath.Log(float64(math.Float32frombits(binary.LittleEndian.Uint32(splatBuffer[12:])))),\n\t\t\t\tmath.Log(float64(math.Float32frombits(binary.LittleEndian.Uint32(splatBuffer[16:])))),\n\t\t\t\tmath.Log(float64(math.Float32frombits(binary.LittleEndian.Uint32(splatBuffer[20:])))),\n\t\t\t).ToFloat64())\n\n\t\t\tcolorData = append(colorData, vector3.New(\n\t\t\t\t((float64(splatBuffer[24])/255.)-0.5)/SH_C0,\n\t\t\t\t((float64(splatBuffer[25])/255.)-0.5)/SH_C0,\n\t\t\t\t((float64(splatBuffer[26])/255.)-0.5)/SH_C0,\n\t\t\t).ToFloat64())\n\n\t\t\ta := (float64(splatBuffer[27]) / 255.)\n\t\t\topacityData = append(opacityData, -math.Log((1/a)-1))\n\n\t\t\trotationData = append(rotationData, vector4.New(\n\t\t\t\t(float64(splatBuffer[28])-128)/128,\n\t\t\t\t(float64(splatBuffer[29])-128)/128,\n\t\t\t\t(float64(splatBuffer[30])-128)/128,\n\t\t\t\t(float64(splatBuffer[31])-128)/128,\n\t\t\t).ToFloat64())\n\t\t}\n\t}\n\n\t// The last block of a file is rarely a full one\n\tif err == io.EOF || err == io.ErrUnexpectedEOF {\n\t\terr = nil\n\t}\n'
+M("M59: splat.Read reads 2048-record blocks, decode loop bounded in bytes (offset < n), ErrUnexpectedEOF = end of file (seed C14-r34)",SPL,SPLAT_HEAD,SPLAT_R34,["REC-WHOLE"])
+M("M60: splat.Read block reader, decode window only half covered by the bound (offset+16 <= n)",SPL,SPLAT_HEAD,SPLAT_BLOCK_HALF,["REC-WHOLE"])
+R("R26: splat.Read block reader bounded in whole records (offset+32 <= n); a partial tail is reported as io.ErrUnexpectedEOF",SPL,SPLAT_HEAD,SPLAT_BLOCK_ERR)
+R("R27: splat.Read block reader bounded in whole records; a partial tail is dropped silently (exactly the whole records: allowed by the property)",SPL,SPLAT_HEAD,SPLAT_BLOCK_DROP,note="behaviour change the property permits")
+
 # sanity: every fragment present when applied sequentially
 bad=0
 for e in out:
